@@ -440,9 +440,8 @@ def impl_restrict_fields(a):
         if g.error is not None:
             return err("GEN:" + type(g.error).__name__)
         classes = g.classes()
-        if classes["C"].__bases__[0].__name__ != "A":
-            return {"unmodelled": "the restriction base was dropped (FlattenClassExtensions.should_remove_extension)"}
-        return ok({"derived": named_shapes(classes["C"]), "base": named_shapes(classes["A"])})
+        inherits = classes["C"].__bases__[0].__name__ == "A"
+        return ok({"inherits": inherits, "derived": named_shapes(classes["C"]), "base": named_shapes(classes["A"])})
     finally:
         g.close()
 
@@ -467,7 +466,7 @@ def impl_ext_fields(a):
             return err("GEN:" + type(g.error).__name__)
         classes = g.classes()
         if classes["B"].__bases__[0].__name__ != "A":
-            return {"unmodelled": "the extension was flattened or dropped"}
+            return err("SHAPE:the extension was flattened or dropped")
         return ok([[n, [isinstance(sh, dict) and sh["default"] == "list", isinstance(sh, dict) and sh["default"] == "MISSING"]] for n, sh in named_shapes(classes["B"])])
     finally:
         g.close()
@@ -701,7 +700,7 @@ def classify_override(a, out):
 def classify_restrict(a, out):
     base = {o["name"] for o in a["base"]}
     own = [o["name"] for o in a["own"]]
-    return f"base={len(base)}/own={len(own)}/{'new-name' if any(n not in base for n in own) else 'subset'}/{'omits' if base - set(own) else 'all'}" + ("/unmodelled" if isinstance(out, dict) and "unmodelled" in out else "")
+    return f"base={len(base)}/own={len(own)}/{'new-name' if any(n not in base for n in own) else 'subset'}/{'omits' if base - set(own) else 'all'}" + ("/base-dropped" if isinstance(out, dict) and isinstance(out.get("ok"), dict) and out["ok"].get("inherits") is False else "")
 
 
 def classify_subst(a, out):
@@ -741,6 +740,57 @@ def classify_compound(a, out):
     return f"groups={min(len(big), 3)}/{'effective' if eff else 'real'}/pathlen={min(deep, 4)}/{'one-sequence' if seqs else 'mixed-sequence'}"
 
 
+# ------------------------------------------------------------------ readAttr: the strict parser on the generated class
+def gen_read_attr(rng, tier):
+    """every use x default/fixed x type, each with the attribute absent, given freely, given as the default /
+    fixed value (documents outside `allows` included: the op ties `readAttr` as a whole, not only on valid input)"""
+    for tp in ("string", None):
+        for dflt, fx in ((None, None), ("dv", None), (None, "fv"), ("x y", None)):
+            for u in (None, "optional", "required", "prohibited"):
+                d = {"kind": "attribute", "use": u, "default": dflt, "fixed": fx, "type": tp}
+                yield {"decl": d, "givens": [None, "v1", dflt or fx or "w", "two words"]}
+    for _ in range(n_cases(tier, 15, 300)):
+        d = G.gen_decl(rng, kind="attribute")
+        d.pop("enum", None)
+        d["group"] = rng.random() < 0.3
+        yield {"decl": d, "givens": [None, rng.choice(["v1", "dv", "fv", "7"]), d["default"] or d["fixed"] or "q"]}
+
+
+def impl_read_attr(a):
+    d = a["decl"]
+    try:
+        return ok(G.real_read_attr({"s.xsd": G.decls_xsd([d])}, a["givens"],
+                                   lambda x: '<t:r xmlns:t="urn:t"' + (f' d0="{G._xml_attr(x)}"' if x is not None else "") + "/>"))
+    except Exception as e:  # noqa: BLE001
+        return err("GEN:" + type(e).__name__)
+
+
+def classify_read_attr(a, out):
+    d = a["decl"]
+    res = out.get("ok") if isinstance(out, dict) else None
+    kinds = sorted({("error" if r == "ParserError" else "none" if r == [None] else "value") for r in (res or [])})
+    return f"{d['use']}{'+d' if d['default'] is not None else ''}{'+f' if d['fixed'] is not None else ''}/" + "+".join(kinds)
+
+
+# ------------------------------------------------------------------ type name lookup (Gen/TypeLookup.lean)
+def gen_find_dependency(rng, tier):
+    import itertools
+
+    tags = ["Element", "ComplexType", "SimpleType", "Attribute"]
+    for n in range(0, 4):
+        for cands in itertools.permutations(tags, n):
+            for tag in ("Element", "Attribute"):
+                for target in [None] + list(range(n)):
+                    yield {"tag": tag, "cands": list(cands), "target": target}
+
+
+def impl_find_dependency(a):
+    try:
+        return ok(G.real_find_dependency(a["tag"], a["cands"], a["target"]))
+    except Exception as e:  # noqa: BLE001
+        return err("LEAK:" + type(e).__name__)
+
+
 def _c16():
     import props.c16 as c16
 
@@ -773,13 +823,18 @@ CORRS = [
     Corr("gen.enum_default", lambda rng, tier: _c16().gen_enum_default(rng, tier), lambda a: _c16().impl_enum_default(a),
          classify=lambda a, o: _c16().classify_enum_default(a, o),
          describe="xs:enumeration / DTD enumerations whose values collide after slugging: is_valid_enum_type placeholder and the member values field_default_enum / constant_name resolve it to vs model (shared with C16)"),
+    Corr("gen.read_attr", gen_read_attr, impl_read_attr, classify=classify_read_attr,
+         describe="readAttr (the conclusion of attribute_faithful): whole real pipeline on one xs:attribute declaration, then the real XmlParser (fail_on_unknown_attributes) on documents that omit / give the attribute (valid or not) vs readAttr (attrField d)"),
+    Corr("gen.find_dependency", gen_find_dependency, impl_find_dependency,
+         classify=lambda a, o: f"{a['tag']}/n={len(a['cands'])}/{'own' if a['target'] is not None else 'other'}",
+         describe="ProcessAttributeTypes.find_dependency in a real container with every arrangement of same-named Element / ComplexType / SimpleType / Attribute classes vs model"),
     Corr("gen.override", gen_override, impl_override,
          classify=classify_override, describe="ValidateAttributesOverrides.validate_override on constructed child/parent attrs vs model"),
     Corr("gen.restrict_attrs", gen_restrict, impl_restrict_attrs,
          classify=classify_restrict, describe="ValidateAttributesOverrides.process on a constructed class with a restriction base (validate_attrs + prohibit_parent_attrs) vs model"),
-    Corr("gen.restrict_fields", gen_restrict_fields, impl_restrict_fields, compare=lambda m, i, a: "unmodelled" in i or m == i,
+    Corr("gen.restrict_fields", gen_restrict_fields, impl_restrict_fields,
          classify=classify_restrict, describe="complexContent restriction: whole real pipeline + stand-in renderer, the dataclass fields of base and derived class vs model"),
-    Corr("gen.ext_fields", gen_ext, impl_ext_fields, canon=canon_ext_fields, compare=lambda m, i, a: "unmodelled" in i or m == i,
+    Corr("gen.ext_fields", gen_ext, impl_ext_fields, canon=canon_ext_fields,
          classify=lambda a, o: classify_particle({'particle': a['base']}, o), describe="complexContent extension: whole real pipeline + stand-in renderer, list-ness / requiredness of inherited + own fields of the derived class vs model"),
     Corr("gen.subst_sites", gen_subst_sites, impl_subst_sites, canon=canon_by_name,
          nontrivial=lambda a, o: bool(a["subs"]),
@@ -1668,10 +1723,20 @@ def covered_ns(a, msg):
 
 # ---- wildcards, mixed content, recursion: schema templates with generated documents
 def _canon(e):
-    return (e.tag, sorted(e.attrib.items()), e.text or "", [_canon(c) for c in e], e.tail or "")
+    at = {}
+    for k, v in e.attrib.items():
+        if k == "{%s}type" % XSI_NS and ":" in v:
+            # a QName: compared by expanded name, not by prefix
+            pfx, local = v.split(":", 1)
+            v = "{%s}%s" % (e.nsmap.get(pfx), local)
+        at[k] = v
+    return (e.tag, sorted(at.items()), e.text or "", [_canon(c) for c in e], e.tail or "")
 
 
-def oracle_misc(a):
+XSI_NS = "http://www.w3.org/2001/XMLSchema-instance"
+
+
+def _oracle_misc_failures(a):
     """xs:any / xs:anyAttribute with every namespace constraint and processContents, mixed="true", recursive and
     nested anonymous types: every schema-valid document parses under strict settings and comes back with the
     same infoset (prefixes aside)"""
@@ -1685,11 +1750,12 @@ def oracle_misc(a):
     try:
         schema = etree.XMLSchema(etree.fromstring(xsd.encode()))
     except etree.XMLSchemaParseError:
-        return None
+        return
     g = CG.run_pipeline({"s.xsd": xsd}, **a.get("config", {}))
     try:
         if g.error is not None:
-            return f"generation failed: {type(g.error).__name__}: {g.error}"
+            yield f"generation failed: {type(g.error).__name__}: {g.error}"
+            return
         R = g.classes()["R"]
         ctx = XmlContext()
         parser = XmlParser(context=ctx, config=ParserConfig(fail_on_unknown_properties=True, fail_on_unknown_attributes=True, fail_on_converter_warnings=True))
@@ -1700,15 +1766,79 @@ def oracle_misc(a):
             try:
                 obj = parser.from_string(doc, R)
             except Exception as e:  # noqa: BLE001
-                return f"schema-valid document {doc} rejected: {type(e).__name__}: {e}"
+                yield f"schema-valid document {doc} rejected: {type(e).__name__}: {e}"
+                continue
             out = XmlSerializer(context=ctx).render(obj)
             back = etree.fromstring(out.encode())
+            for k, v in (a.get("defaults") or {}).items():
+                # "modulo applied defaults": an absent attribute with a declared default may come back with it
+                if k not in src.attrib and k in back.attrib and back.attrib[k] == v:
+                    src.set(k, v)
             if _canon(back) != _canon(src):
-                return f"document {doc} re-serialised with another infoset: {out}"
+                yield f"document {doc} re-serialised with another infoset: {out}"
+                continue
             if not schema.validate(back):
-                return f"document {doc} re-serialised as {out}, which is not schema-valid"
+                yield f"document {doc} re-serialised as {out}, which is not schema-valid"
+                continue
     finally:
         g.close()
+    return
+
+
+
+def oracle_misc(a):
+    """the first failure no listed finding covers, else the first failure, else None"""
+    first = None
+    for msg in _oracle_misc_failures(a):
+        if first is None:
+            first = msg
+        if not covered_misc(a, msg):
+            return msg
+    return first
+
+
+def _msg_docs(msg):
+    """the document and its re-serialisation quoted by a failure message of oracle_misc"""
+    from lxml import etree
+
+    for sep in (" re-serialised with another infoset: ", " re-serialised as "):
+        if msg.startswith("document ") and sep in msg:
+            doc, out = msg[len("document "):].split(sep, 1)
+            out = out.split(", which is not schema-valid")[0]
+            try:
+                return etree.fromstring(doc.encode()), etree.fromstring(out.encode())
+            except etree.XMLSyntaxError:
+                return None
+    return None
+
+
+def covered_misc(a, msg):
+    """C02-empty-list-element-dropped: the re-serialisation is the document without its empty elements of list
+    type, nothing else differs.  C02-same-name-type-and-element: the rejected child is the one whose type= / ref=
+    names both a type and a global element of other content."""
+    kind = a.get("kind", "")
+    if kind.startswith("list") and a.get("list_elems"):
+        pair = _msg_docs(msg)
+        if pair:
+            src, back = pair
+            dropped = False
+            for ch in list(src):
+                from lxml import etree
+
+                if etree.QName(ch).localname in a["list_elems"] and not (ch.text or "").strip() and len(ch) == 0:
+                    src.remove(ch)
+                    dropped = True
+            for k, v in (a.get("defaults") or {}).items():
+                if k not in src.attrib and back.attrib.get(k) == v:
+                    src.set(k, v)
+            if dropped and _canon(src) == _canon(back):
+                return "C02-empty-list-element-dropped"
+    if kind.startswith("merge/clash") and "rejected" in msg and a.get("clash_child") and ("Unknown property" in msg or "Failed to create" in msg):
+        import re as _re
+
+        m = _re.search(r"document (<.*>) rejected", msg, _re.S)
+        if m and ("<t:%s" % a["clash_child"]) in m.group(1):
+            return "C02-same-name-type-and-element"
     return None
 
 
@@ -1722,7 +1852,7 @@ def gen_misc(rng, tier):
     n = 0
     while n < n_cases(tier, 60, 100000):
         n += 1
-        kind = rng.choice(["any", "any", "anyattr", "mixed", "recursive", "nested", "derived"])
+        kind = rng.choice(["any", "any", "anyattr", "mixed", "recursive", "nested", "derived", "xsitype", "xsitype", "list", "list", "facets", "merge", "merge"])
         cfg = {"compound_fields": True} if rng.random() < 0.25 else {}
         if kind == "any":
             ns = rng.choice(["##any", "##other", "##local", "##targetNamespace", "urn:o urn:p", "urn:o", "##targetNamespace ##local"])
@@ -1754,6 +1884,102 @@ def gen_misc(rng, tier):
                     parts += ["<t:b>3</t:b>", rng.choice(["w", ""])]
                 docs.append(f'<t:r {NSD}>' + "".join(parts) + "</t:r>")
             yield {"xsd": _schema(body), "docs": docs, "config": cfg, "kind": "mixed"}
+        elif kind == "xsitype":
+            # a chain of extensions A <- B <- C; elements declared with the base type carry instances of the derived
+            # types under xsi:type (also the root element, also inside a list, also an abstract base)
+            abstract = rng.random() < 0.3
+            extra = (f' <xs:complexType name="A"{" abstract=" + chr(34) + "true" + chr(34) if abstract else ""}><xs:sequence><xs:element name="a" type="xs:string"/></xs:sequence><xs:attribute name="k" type="xs:string"/></xs:complexType>\n'
+                     ' <xs:complexType name="B"><xs:complexContent><xs:extension base="A"><xs:sequence><xs:element name="b" type="xs:int" maxOccurs="unbounded"/></xs:sequence><xs:attribute name="m" type="xs:string"/></xs:extension></xs:complexContent></xs:complexType>\n'
+                     ' <xs:complexType name="C"><xs:complexContent><xs:extension base="B"><xs:sequence><xs:element name="c" type="xs:string" minOccurs="0"/><xs:element name="in" type="A" minOccurs="0"/></xs:sequence></xs:extension></xs:complexContent></xs:complexType>\n')
+            body = '<xs:complexType><xs:sequence><xs:element name="one" type="A" minOccurs="0"/><xs:element name="item" type="A" minOccurs="0" maxOccurs="unbounded"/></xs:sequence></xs:complexType>'
+
+            def inst(tag, depth=0):
+                t = rng.choice(["B", "C"] if abstract else ["A", "B", "C"])
+                at = (f' xsi:type="t:{t}"' if t != "A" else "") + rng.choice(["", ' k="kv"']) + (rng.choice(["", ' m="mv"']) if t != "A" else "")
+                kids = "<t:a>av</t:a>"
+                if t in ("B", "C"):
+                    kids += "".join(f"<t:b>{rng.randint(-9, 9)}</t:b>" for _ in range(rng.randint(1, 3)))
+                if t == "C":
+                    kids += rng.choice(["", "<t:c>cv</t:c>"])
+                    if depth < 2 and rng.random() < 0.4:
+                        kids += inst("t:in", depth + 1)
+                return f"<{tag}{at}>{kids}</{tag}>"
+
+            docs = []
+            for _ in range(5):
+                kids = (inst("t:one") if rng.random() < 0.5 else "") + "".join(inst("t:item") for _ in range(rng.randint(0, 3)))
+                docs.append(f'<t:r {NSD} xmlns:xsi="{XSI_NS}">{kids}</t:r>')
+            yield {"xsd": _schema(body, extra), "docs": docs, "config": cfg, "kind": f"xsitype/{'abstract' if abstract else 'concrete'}"}
+        elif kind == "list":
+            # xs:list of a builtin, of an anonymous enumeration, NMTOKENS / IDREFS; as element (single, repeated) and attribute, with a default
+            item = rng.choice(["xs:int", "xs:string", "xs:date", "xs:boolean"])
+            vals = {"xs:int": ["1", "-2", "30"], "xs:string": ["a", "bb", "c1"], "xs:date": ["2020-01-01", "1999-12-31"], "xs:boolean": ["true", "false"]}[item]
+            dflt = " ".join(rng.sample(vals, 2))
+            extra = (f' <xs:simpleType name="L"><xs:list itemType="{item}"/></xs:simpleType>\n'
+                     ' <xs:simpleType name="LE"><xs:list><xs:simpleType><xs:restriction base="xs:string"><xs:enumeration value="a"/><xs:enumeration value="b-1"/><xs:enumeration value="b1"/></xs:restriction></xs:simpleType></xs:list></xs:simpleType>\n'
+                     ' <xs:simpleType name="LL"><xs:restriction base="L"><xs:maxLength value="3"/></xs:restriction></xs:simpleType>\n')
+            body = ('<xs:complexType><xs:sequence><xs:element name="l" type="L"/><xs:element name="m" type="L" minOccurs="0" maxOccurs="unbounded"/>'
+                    '<xs:element name="e" type="LE" minOccurs="0"/><xs:element name="ll" type="LL" minOccurs="0"/></xs:sequence>'
+                    f'<xs:attribute name="al" type="L" default="{dflt}"/><xs:attribute name="nm" type="xs:NMTOKENS"/><xs:attribute name="ae" type="LE"/></xs:complexType>')
+
+            def toks(pool, lo=1, hi=3):
+                return " ".join(rng.choice(pool) for _ in range(rng.randint(lo, hi)))
+
+            docs = []
+            for _ in range(6):
+                at = rng.choice(["", f' al="{toks(vals)}"']) + rng.choice(["", f' nm="{toks(["x", "y-1", "z.2"])}"']) + rng.choice(["", f' ae="{toks(["a", "b-1", "b1"])}"'])
+                kids = f"<t:l>{toks(vals, 0 if rng.random() < 0.25 else 1)}</t:l>" + "".join(f"<t:m>{toks(vals)}</t:m>" for _ in range(rng.randint(0, 2)))
+                kids += rng.choice(["", f'<t:e>{toks(["a", "b-1", "b1"])}</t:e>']) + rng.choice(["", f"<t:ll>{toks(vals, 1, 3)}</t:ll>"])
+                docs.append(f"<t:r {NSD}{at}>{kids}</t:r>")
+            yield {"xsd": _schema(body, extra), "docs": docs, "config": cfg, "kind": f"list/{item}", "defaults": {"al": dflt}, "list_elems": ["l", "m", "e", "ll"]}
+        elif kind == "facets":
+            # restrictions with facets (bounds, pattern, lengths, digits, whiteSpace), a restriction of a restriction; valid values only
+            extra = (' <xs:simpleType name="F1"><xs:restriction base="xs:int"><xs:minInclusive value="1"/><xs:maxExclusive value="10"/></xs:restriction></xs:simpleType>\n'
+                     ' <xs:simpleType name="F2"><xs:restriction base="xs:string"><xs:pattern value="[a-z]{2,4}"/><xs:maxLength value="4"/></xs:restriction></xs:simpleType>\n'
+                     ' <xs:simpleType name="F3"><xs:restriction base="xs:decimal"><xs:totalDigits value="5"/><xs:fractionDigits value="2"/></xs:restriction></xs:simpleType>\n'
+                     ' <xs:simpleType name="F4"><xs:restriction base="F2"><xs:length value="3"/></xs:restriction></xs:simpleType>\n'
+                     ' <xs:simpleType name="F5"><xs:restriction base="xs:token"><xs:minLength value="1"/></xs:restriction></xs:simpleType>\n'
+                     ' <xs:simpleType name="F6"><xs:restriction base="xs:dateTime"><xs:minInclusive value="2000-01-01T00:00:00"/></xs:restriction></xs:simpleType>\n')
+            body = ('<xs:complexType><xs:sequence><xs:element name="a" type="F1"/><xs:element name="b" type="F2" maxOccurs="2"/><xs:element name="c" type="F3"/>'
+                    '<xs:element name="d" type="F4" minOccurs="0"/><xs:element name="e" type="F5" minOccurs="0"/><xs:element name="f" type="F6" minOccurs="0"/></xs:sequence>'
+                    '<xs:attribute name="k" type="F1"/><xs:attribute name="p" type="F4" default="abc"/></xs:complexType>')
+            docs = []
+            for _ in range(5):
+                at = rng.choice(["", f' k="{rng.randint(1, 9)}"']) + rng.choice(["", ' p="xyz"'])
+                kids = (f"<t:a>{rng.randint(1, 9)}</t:a>" + "".join(f"<t:b>{rng.choice(['ab', 'abc', 'abcd'])}</t:b>" for _ in range(rng.randint(1, 2)))
+                        + f"<t:c>{rng.choice(['123.45', '-1.5', '0', '99999'])}</t:c>" + rng.choice(["", "<t:d>abc</t:d>"]) + rng.choice(["", "<t:e>tok en</t:e>"])
+                        + rng.choice(["", "<t:f>2001-02-03T04:05:06</t:f>", "<t:f>2020-12-31T23:59:59Z</t:f>"]))
+                docs.append(f"<t:r {NSD}{at}>{kids}</t:r>")
+            yield {"xsd": _schema(body, extra), "docs": docs, "config": cfg, "kind": "facets", "defaults": {"p": "abc"}}
+        elif kind == "merge":
+            # global components that share a name (ClassValidator: an element and the complexType of the same name it is
+            # typed by are merged; a simple type, an attribute and an element of one name live side by side), and the clash
+            # where type= / ref= must pick the type resp. the element although the other one has another content
+            v = rng.choice(["merged", "merged", "side-by-side", "clash-type", "clash-ref"])
+            if v == "merged":
+                extra = (' <xs:complexType name="x"><xs:sequence><xs:element name="p" type="xs:string"/></xs:sequence><xs:attribute name="q" type="xs:int"/></xs:complexType>\n'
+                         ' <xs:element name="x" type="x"/>\n')
+                body = '<xs:complexType><xs:sequence><xs:element name="u" type="x" minOccurs="0"/><xs:element ref="x" minOccurs="0" maxOccurs="unbounded"/></xs:sequence></xs:complexType>'
+                docs = [f"<t:r {NSD}>" + rng.choice(["", '<t:u q="1"><t:p>s</t:p></t:u>']) + "".join(rng.choice(['<t:x><t:p>t</t:p></t:x>', '<t:x q="-2"><t:p>w</t:p></t:x>']) for _ in range(rng.randint(0, 2))) + "</t:r>" for _ in range(5)]
+                yield {"xsd": _schema(body, extra), "docs": docs, "config": cfg, "kind": "merge/merged"}
+            elif v == "side-by-side":
+                extra = (' <xs:simpleType name="x"><xs:restriction base="xs:int"/></xs:simpleType>\n <xs:attribute name="x" type="xs:boolean"/>\n'
+                         ' <xs:element name="x" type="x"/>\n')
+                body = '<xs:complexType><xs:sequence><xs:element name="u" type="x" minOccurs="0"/><xs:element ref="x" minOccurs="0"/></xs:sequence><xs:attribute ref="x"/></xs:complexType>'
+                docs = [f"<t:r {NSD}" + rng.choice(["", ' t:x="true"']) + ">" + rng.choice(["", "<t:u>5</t:u>"]) + rng.choice(["", "<t:x>-7</t:x>"]) + "</t:r>" for _ in range(5)]
+                yield {"xsd": _schema(body, extra), "docs": docs, "config": cfg, "kind": "merge/side-by-side"}
+            elif v == "clash-type":
+                extra = (' <xs:simpleType name="x"><xs:restriction base="xs:int"/></xs:simpleType>\n'
+                         ' <xs:element name="x"><xs:complexType><xs:sequence><xs:element name="q" type="xs:string"/></xs:sequence></xs:complexType></xs:element>\n')
+                body = '<xs:complexType><xs:sequence><xs:element name="a" type="xs:string"/><xs:element name="u" type="x" minOccurs="0"/></xs:sequence></xs:complexType>'
+                docs = [f"<t:r {NSD}><t:a>v</t:a>" + rng.choice(["", "<t:u>5</t:u>"]) + "</t:r>" for _ in range(4)]
+                yield {"xsd": _schema(body, extra), "docs": docs, "config": cfg, "kind": "merge/clash-type", "clash_child": "u"}
+            else:
+                extra = (' <xs:complexType name="y"><xs:sequence><xs:element name="p" type="xs:string"/></xs:sequence></xs:complexType>\n'
+                         ' <xs:element name="y"><xs:complexType><xs:sequence><xs:element name="q" type="xs:int"/></xs:sequence></xs:complexType></xs:element>\n')
+                body = '<xs:complexType><xs:sequence><xs:element name="u" type="y"/><xs:element ref="y" minOccurs="0"/></xs:sequence></xs:complexType>'
+                docs = [f"<t:r {NSD}><t:u><t:p>s</t:p></t:u>" + rng.choice(["", "<t:y><t:q>3</t:q></t:y>"]) + "</t:r>" for _ in range(4)]
+                yield {"xsd": _schema(body, extra), "docs": docs, "config": cfg, "kind": "merge/clash-ref", "clash_child": "y"}
         elif kind == "derived":
             # extension of a named type that carries XML attributes (directly and through attribute groups), with a wildcard at
             # the end of the base content (the base is then flattened into the derived class) or without one (python
@@ -1911,7 +2137,7 @@ ORACLES = [
     Oracle("c02.derived_docs", gen_derived, oracle_derived),
     Oracle("c02.subst_docs", gen_subst_docs, oracle_docs, covered=covered_subst),
     Oracle("c02.ns_docs", gen_ns_docs, oracle_ns_docs, covered=covered_ns),
-    Oracle("c02.misc_docs", gen_misc, oracle_misc),
+    Oracle("c02.misc_docs", gen_misc, oracle_misc, covered=covered_misc),
 ]
 
 
@@ -1962,7 +2188,26 @@ def finding_nil_absent():
     return (msg is not None and covered_attr_docs(a, msg) == "C02-nillable-absent-rendered-nil", msg or "the document now comes back unchanged")
 
 
+def finding_empty_list():
+    xsd = _schema('<xs:complexType><xs:sequence><xs:element name="l" type="L"/></xs:sequence></xs:complexType>',
+                  ' <xs:simpleType name="L"><xs:list itemType="xs:int"/></xs:simpleType>\n')
+    a = {"xsd": xsd, "docs": ['<t:r xmlns:t="urn:t"><t:l></t:l></t:r>'], "kind": "list/xs:int", "list_elems": ["l"]}
+    msg = oracle_misc(a)
+    return (msg is not None and covered_misc(a, msg) == "C02-empty-list-element-dropped", msg or "the document now comes back unchanged")
+
+
+def finding_name_clash():
+    extra = (' <xs:simpleType name="x"><xs:restriction base="xs:int"/></xs:simpleType>\n'
+             ' <xs:element name="x"><xs:complexType><xs:sequence><xs:element name="q" type="xs:string"/></xs:sequence></xs:complexType></xs:element>\n')
+    body = '<xs:complexType><xs:sequence><xs:element name="a" type="xs:string"/><xs:element name="u" type="x" minOccurs="0"/></xs:sequence></xs:complexType>'
+    a = {"xsd": _schema(body, extra), "docs": ['<t:r xmlns:t="urn:t"><t:a>v</t:a><t:u>5</t:u></t:r>'], "kind": "merge/clash-type", "clash_child": "u"}
+    msg = oracle_misc(a)
+    return (msg is not None and covered_misc(a, msg) == "C02-same-name-type-and-element", msg or "the document now parses")
+
+
 FINDINGS = {
+    "C02-empty-list-element-dropped": finding_empty_list,
+    "C02-same-name-type-and-element": finding_name_clash,
     "C02-duplicate-name-sites": finding_duplicate_sites,
     "C02-nillable-absent-rendered-nil": finding_nil_absent,
     "C02-unprefixed-ref-unbound-target-namespace": finding_ns_heuristic,
